@@ -87,3 +87,23 @@ def classify_c05(x32, degenerate):
     if mask[i] and x32 == np.float32(k32[i]):
       return "KF-C05-a"
   return None
+
+
+def classify_c03(step, ftype, calibrators, tol, hooks=None):
+  """KF-C03-a: right after construction (step 0: no optimizer update and no
+  constraint application yet) a CategoricalCalibration with ordering pairs starts
+  from RandomUniform and ignores the pairs.
+  KF-C03-b: consequence of KF-C04-a inside models: in the same state some PWL
+  calibrator configured with monotonicity AND convexity has keypoint outputs
+  outside its declared range (the calibrator-range invariant hook fired)."""
+  if step == 0 and ftype == "categorical":
+    return "KF-C03-a"
+  # KF-C03-c: right after construction a Linear layer built with its default
+  # random_uniform initializer holds weights whose sign contradicts its
+  # monotonicities (hook: wrong-signed weight present at step 0).
+  if step == 0 and ftype == "numeric" and hooks and hooks.get("linear_wrong_sign"):
+    return "KF-C03-c"
+  for c in calibrators or []:
+    if c["mono"] != 0 and c["conv"] != 0 and c["out_of_range"] > tol:
+      return "KF-C03-b"
+  return None
